@@ -22,8 +22,9 @@ use serde_json::{json, Value};
 use std::panic::{catch_unwind, AssertUnwindSafe};
 use umya_spreadsheet::helper::coordinate::coordinate_from_index;
 use umya_spreadsheet::structs::drawing::spreadsheet::MarkerType;
+use std::collections::HashMap;
 use umya_spreadsheet::structs::{
-    CellRawValue, Chart, ChartType, Comment, ConditionalFormatValues, ConditionalFormatting, ConditionalFormattingOperatorValues,
+    Cell, CellFormulaValues, CellRawValue, Chart, DefinedName, ChartType, Comment, ConditionalFormatValues, ConditionalFormatting, ConditionalFormattingOperatorValues,
     ConditionalFormattingRule, DataValidation, DataValidationValues, DataValidations, Formula, Image, Range, RichText,
     Spreadsheet, Style, Table, TableColumn, TextElement,
 };
@@ -65,23 +66,47 @@ fn rect_of(r: &Range) -> Value {
 }
 
 /// The content of the workbook as the public getters show it (cells that carry a value or a formula,
-/// hyperlinks, merged ranges, defined names, sheet list).
+/// hyperlinks, merged ranges, defined names, sheet list) plus the object counts the package structure
+/// depends on.  Children of a shared formula are shown as such ("sm" = reference of the master cell, the
+/// first cell of the group in row-major order), not with the text the reader derived for them.
+fn name_of(d: &DefinedName) -> Value {
+    json!({"name": d.get_name(), "addr": d.get_address(),
+           "lsid": if d.has_local_sheet_id() { *d.get_local_sheet_id() as i64 } else { -1 }})
+}
+
+fn ext_of(name: &str) -> String {
+    match name.rsplit_once('.') {
+        Some((_, e)) => e.to_string(),
+        None => String::new(),
+    }
+}
+
 fn model(book: &Spreadsheet) -> Value {
     let mut sheets = vec![];
-    let mut names = vec![];
-    for d in book.get_defined_names() {
-        names.push(json!({"name": d.get_name(), "addr": d.get_address(),
-                          "lsid": if d.has_local_sheet_id() { *d.get_local_sheet_id() as i64 } else { -1 }}));
-    }
+    let gnames: Vec<Value> = book.get_defined_names().iter().map(name_of).collect();
     for ws in book.get_sheet_collection_no_check() {
-        let mut cells: Vec<(u32, u32, Value)> = vec![];
-        let mut links: Vec<(u32, u32, Value)> = vec![];
-        for c in ws.get_cell_collection() {
+        let mut all: Vec<&Cell> = ws.get_cell_collection();
+        all.sort_by_key(|c| (*c.get_coordinate().get_row_num(), *c.get_coordinate().get_col_num()));
+        // masters of shared formulas
+        let mut masters: HashMap<u32, String> = HashMap::new();
+        for c in &all {
+            if let Some(f) = c.get_formula_obj() {
+                if f.get_formula_type() == &CellFormulaValues::Shared {
+                    let co = c.get_coordinate();
+                    masters
+                        .entry(*f.get_shared_index())
+                        .or_insert_with(|| coordinate_from_index(co.get_col_num(), co.get_row_num()));
+                }
+            }
+        }
+        let mut cells: Vec<Value> = vec![];
+        let mut links: Vec<Value> = vec![];
+        for c in &all {
             let co = c.get_coordinate();
             let (r, col) = (*co.get_row_num(), *co.get_col_num());
             if let Some(h) = c.get_hyperlink() {
-                links.push((r, col, json!({"r": clamp(r), "c": clamp(col), "url": h.get_url(), "loc": *h.get_location(),
-                                           "tip": h.get_tooltip()})));
+                links.push(json!({"r": clamp(r), "c": clamp(col), "url": h.get_url(), "loc": *h.get_location(),
+                                  "tip": h.get_tooltip()}));
             }
             let raw = c.get_raw_value();
             let k = match raw {
@@ -100,24 +125,57 @@ fn model(book: &Spreadsheet) -> Value {
                 CellRawValue::Numeric(x) => f64_bits(*x),
                 _ => d.clone(),
             };
-            cells.push((r, col, json!({"r": clamp(r), "c": clamp(col), "k": k, "v": v, "d": d, "f": c.get_formula(),
-                                       "isf": c.is_formula()})));
+            let mut f = c.get_formula().to_string();
+            let mut sm = String::new();
+            if let Some(fo) = c.get_formula_obj() {
+                if fo.get_formula_type() == &CellFormulaValues::Shared {
+                    let me = coordinate_from_index(&col, &r);
+                    let master = masters.get(fo.get_shared_index()).cloned().unwrap_or_default();
+                    if master != me {
+                        sm = master;
+                        f = String::new();
+                    }
+                }
+            }
+            let sty = c
+                .get_style()
+                .get_number_format()
+                .map(|n| n.get_format_code().to_string())
+                .unwrap_or_default();
+            let sty = if sty == "General" { String::new() } else { sty };
+            cells.push(json!({"r": clamp(r), "c": clamp(col), "k": k, "v": v, "d": d, "f": f, "sm": sm, "sty": sty}));
         }
-        cells.sort_by_key(|x| (x.0, x.1));
-        links.sort_by_key(|x| (x.0, x.1));
         let merges: Vec<Value> = ws.get_merge_cells().iter().map(rect_of).collect();
-        for d in ws.get_defined_names() {
-            names.push(json!({"name": d.get_name(), "addr": d.get_address(),
-                              "lsid": if d.has_local_sheet_id() { *d.get_local_sheet_id() as i64 } else { -1 }}));
-        }
-        sheets.push(json!({"name": ws.get_name(),
-                           "cells": cells.into_iter().map(|x| x.2).collect::<Vec<_>>(),
-                           "links": links.into_iter().map(|x| x.2).collect::<Vec<_>>(),
-                           "merges": merges,
-                           "ncomments": ws.get_comments().len(), "ntables": ws.get_tables().len(),
-                           "nimages": ws.get_image_collection().len(), "ncharts": ws.get_chart_collection().len()}));
+        let names: Vec<Value> = ws.get_defined_names().iter().map(name_of).collect();
+        let mut comments: Vec<(u32, u32)> = ws
+            .get_comments()
+            .iter()
+            .map(|c| (*c.get_coordinate().get_row_num(), *c.get_coordinate().get_col_num()))
+            .collect();
+        comments.sort();
+        let vmlnoimg = ws
+            .get_comments()
+            .iter()
+            .filter(|c| match c.get_shape().get_image_data() {
+                Some(i) => i.get_image().get_image_name().is_empty(),
+                None => false,
+            })
+            .count();
+        let imgs: Vec<Value> = ws
+            .get_image_collection()
+            .iter()
+            .map(|i| {
+                let e = ext_of(i.get_image_name());
+                json!({"name": i.get_image_name(), "ext": e, "extl": e.to_lowercase()})
+            })
+            .collect();
+        sheets.push(json!({"name": ws.get_name(), "cells": cells, "links": links, "merges": merges, "names": names,
+                           "comments": comments.iter().map(|x| json!({"r": clamp(x.0), "c": clamp(x.1)})).collect::<Vec<_>>(),
+                           "tables": ws.get_tables().iter().map(|t| t.get_name().to_string()).collect::<Vec<_>>(),
+                           "imgs": imgs, "ncharts": ws.get_chart_collection().len(),
+                           "nole": ws.get_ole_objects().get_ole_object().len(), "vmlnoimg": vmlnoimg}));
     }
-    json!({"sheets": sheets, "names": names, "active": *book.get_workbook_view().get_active_tab() as i64,
+    json!({"sheets": sheets, "gnames": gnames, "active": *book.get_workbook_view().get_active_tab() as i64,
            "macro": book.get_has_macros()})
 }
 
@@ -144,8 +202,15 @@ fn apply(book: &mut Spreadsheet, st: &Value, repo: &str) -> Result<(), String> {
             book.set_active_sheet(u(st, "i"));
         }
         "SetCell" => {
+            // the step defines value, formula and number format of the cell; a hyperlink on it stays
             let ws = book.get_sheet_mut(&si()).ok_or("no sheet")?;
-            let cell = ws.get_cell_mut((u(st, "c"), u(st, "r")));
+            let pos = (u(st, "c"), u(st, "r"));
+            let keep = ws.get_cell(pos).and_then(|c| c.get_hyperlink().cloned());
+            ws.remove_cell(pos);
+            let cell = ws.get_cell_mut(pos);
+            if let Some(h) = keep {
+                cell.set_hyperlink(h);
+            }
             let (k, v, f) = (s(st, "k"), s(st, "v"), s(st, "f"));
             if !f.is_empty() {
                 cell.set_formula(f);
